@@ -7,7 +7,10 @@ import Sigc.Basic
   * `visit_each.h`            : primary `visitor<T>` (= `action(functor)`), `limit_trackable_target`,
                                  `visit_each_trackable`
   * `limit_reference.h`       : `limit_reference<T, is_base_of<trackable,T>>`, `visitor<limit_reference>`
-  * `adaptors/bound_argument.h`: `bound_argument<T>`, `<reference_wrapper<T>>`, `<reference_wrapper<const T>>`
+  * `adaptors/bound_argument.h`: `bound_argument<T>`, `<reference_wrapper<T>>`, `<reference_wrapper<const T>>`;
+                                 `visitor<bound_argument<T>>` = `visit_each(action, arg.visit())`, i.e. recursion into
+                                 the bound value — which may itself be a functor (`BArg.fn`): a `mem_fun` functor,
+                                 a `slot` (then `visitor<slot>` makes the outer rep the parent), any adaptor expression
   * `adaptors/adaptor_trait.h`: `adaptor_functor` (wrapper of every non-adaptor functor stored in an adaptor/slot)
   * `functors/mem_fun.h`      : `visitor<bound_mem_functor>`  (also `signal::make_slot()`, `signal_connect`)
   * `adaptors/{bind,bind_return,hide,retype,retype_return,compose,exception_catch,track_obj}.h`
@@ -17,7 +20,8 @@ import Sigc.Basic
   * `trackable.cc`            : `add_callback`, `remove_callback` (first live entry with that data)
 
   The member list of each visitor is the explicit table `codeTable`; `scan` interprets *a* table, so the
-  theorems are about the table as written and the unrepaired `bind<I>` row can be stated next to it.
+  theorems are about the table as written and the unrepaired `bind<I>` row (`unrepairedTable`) and a
+  non-recursing `bound_argument` row (`boundLeafTable`) can be stated next to it.
   No proofs in this file.
 -/
 namespace Sigc.Visit
@@ -43,13 +47,16 @@ structure Obj where
 /-- the trackable behind an object, if it has one (statement side) -/
 def Obj.trk (o : Obj) : List Nat := if o.kind.derivesTrackable then [o.id] else []
 
-/-- a bound argument of `bind` / `bind_return` -/
+mutual
+/-- a bound argument of `bind` / `bind_return` (`bound_argument<T>`) -/
 inductive BArg
   | val               -- a plain value (int)
   | ref (o : Obj)     -- `std::ref(o)`
   | cref (o : Obj)    -- `std::cref(o)`
   | copy (o : Obj)    -- `o` passed by value: the functor owns a private copy, `o` itself is NOT referred to
-  deriving DecidableEq, Repr
+  | fn (e : FExpr)    -- a functor expression bound BY VALUE (`bind(&run_then, continuation_slot)`,
+                      -- `bind(&apply, mem_fun(obj, &T::get))`): `bound_argument<T>` with `T` the functor type;
+                      -- the stored copy still refers to whatever `e` refers to
 
 /-- functor expressions of C09's grammar -/
 inductive FExpr
@@ -68,7 +75,7 @@ inductive FExpr
   | exceptionCatch (f c : FExpr)
   | trackObj (f : FExpr) (ts : List Obj)              -- `track_obj` / `track_object`
   | slot (f : FExpr)                                  -- a `sigc::slot<…>(f)` stored by value
-  deriving Repr
+end
 
 /-- `std::is_base_of<adaptor_base, T>`: non-adaptors are wrapped in `adaptor_functor` when stored -/
 def FExpr.isAdaptor : FExpr → Bool
@@ -77,19 +84,14 @@ def FExpr.isAdaptor : FExpr → Bool
 
 /-! ## statement side -/
 
-def BArg.refs : BArg → List Nat
-  | .val => []
-  | .ref o => o.trk
-  | .cref o => o.trk
-  | .copy _ => []
-
+mutual
 /-- every trackable the expression refers to *by reference* (with multiplicity) -/
 def referenced : FExpr → List Nat
   | .leaf => []
   | .memFun o => o.trk
   | .makeSlot g => g.trk
   | .signalConnect o => o.trk
-  | .bind _ f bs => referenced f ++ bs.flatMap BArg.refs
+  | .bind _ f bs => referenced f ++ refsOf bs
   | .bindReturn f b => referenced f ++ b.refs
   | .hide _ f => referenced f
   | .hideReturn f => referenced f
@@ -101,14 +103,40 @@ def referenced : FExpr → List Nat
   | .trackObj f ts => referenced f ++ ts.flatMap Obj.trk
   | .slot f => referenced f
 
-/-- nesting depth of an expression (leaves have depth 0) -/
+/-- the trackables one bound argument refers to: a bound functor refers to what its expression refers to -/
+def BArg.refs : BArg → List Nat
+  | .val => []
+  | .ref o => o.trk
+  | .cref o => o.trk
+  | .copy _ => []
+  | .fn e => referenced e
+
+/-- all bound arguments of a `bind` (= `bs.flatMap BArg.refs`, see `refsOf_eq_flatMap`) -/
+def refsOf : List BArg → List Nat
+  | [] => []
+  | b :: bs => b.refs ++ refsOf bs
+end
+
+mutual
+/-- nesting depth of an expression (leaves have depth 0; a bound functor counts like a sub-expression) -/
 def depth : FExpr → Nat
   | .leaf | .memFun _ | .makeSlot _ | .signalConnect _ => 0
-  | .bind _ f _ | .bindReturn f _ | .hide _ f | .hideReturn f | .retype f | .retypeReturn f
+  | .bind _ f bs => max (depth f) (depthOf bs) + 1
+  | .bindReturn f b => max (depth f) (BArg.depth b) + 1
+  | .hide _ f | .hideReturn f | .retype f | .retypeReturn f
   | .trackObj f _ | .slot f => depth f + 1
   | .compose1 s g => max (depth s) (depth g) + 1
   | .compose2 s g1 g2 => max (depth s) (max (depth g1) (depth g2)) + 1
   | .exceptionCatch f c => max (depth f) (depth c) + 1
+
+def BArg.depth : BArg → Nat
+  | .fn e => depth e
+  | _ => 0
+
+def depthOf : List BArg → Nat
+  | [] => 0
+  | b :: bs => max (BArg.depth b) (depthOf bs)
+end
 
 /-! ## mechanism side -/
 
@@ -203,7 +231,10 @@ inductive VSpec
 /-- what a visitor passes on -/
 inductive Mem
   | self         -- `action(functor)`
-  | visit        -- `target.visit()`
+  | visit        -- `visit_each(action, target.visit())`: recursion into whatever `visit()` returns
+  | visit_ref_only -- (not in the current tree) `visit_each(action, target.visit())` only for a
+                 -- `bound_argument<std::reference_wrapper<…>>`; a value bound by copy is handed to the action
+                 -- as a leaf: `action(target.visit())`
   | functor_
   | obj_         -- `bound_mem_functor::obj_`
   | bound_       -- whole tuple through `tuple_for_each<TupleVisitorVisitEach>`
@@ -243,14 +274,23 @@ def unrepairedTable : Table
   | .bind_loc => [.functor_, .bound_0]
   | s => codeTable s
 
+/-- a table that differs from the code in one row: "a value bound by copy is a leaf" — `visitor<bound_argument<T>>`
+    hands the stored value to the action instead of recursing into it with `visit_each` (equivalent for plain
+    values and by-value objects, not for a bound functor) -/
+def boundLeafTable : Table
+  | .bound_argument => [.visit_ref_only]
+  | s => codeTable s
+
 /-- run one row: every member of the row, in order, interpreted by `f` -/
 def row (tbl : Table) (s : VSpec) (f : Mem → Rep) : Rep := Rep.seq ((tbl s).map f)
 
-/-- primary `visitor<T>` on an object whose static type is `T`; the action is a
-    `limit_trackable_target`, which calls `slot_do_bind` iff `is_base_of_or_same_v<trackable, T>` -/
+/-- `limit_trackable_target::operator()(const T&)`: calls `slot_do_bind` iff `is_base_of_or_same_v<trackable, T>` -/
+def act (t : Tgt) (isTrackableType : Bool) : Rep := if isTrackableType then .reg t .done else .done
+
+/-- primary `visitor<T>` on an object whose static type is `T`; the action is a `limit_trackable_target` -/
 def visitPrimary (tbl : Table) (t : Tgt) (isTrackableType : Bool) : Rep :=
   row tbl .primary fun
-    | .self => if isTrackableType then .reg t .done else .done
+    | .self => act t isTrackableType
     | _ => .done
 
 /-- `visitor<limit_reference<T>>`: `visit_each(action, target.visit())`.  For `is_base_of<trackable,T>`
@@ -261,20 +301,6 @@ def visitLimRef (tbl : Table) (o : Obj) : Rep :=
     | .visit => visitPrimary tbl (.ext o.id) o.kind.derivesTrackable
     | _ => .done
 
-/-- `visitor<bound_argument<T>>`: `visit_each(action, arg.visit())` -/
-def visitBound (tbl : Table) (b : BArg) : Rep :=
-  row tbl .bound_argument fun
-    | .visit =>
-      match b with
-      | .val => visitPrimary tbl (.own 0) false
-      | .ref o => visitLimRef tbl o
-      | .cref o => visitLimRef tbl o
-      | .copy o => visitPrimary tbl (.own o.id) o.kind.derivesTrackable
-    | _ => .done
-
-/-- `tuple_for_each<TupleVisitorVisitEach>(tuple, action)` -/
-def visitTuple (tbl : Table) (bs : List BArg) : Rep := Rep.seq (bs.map (visitBound tbl))
-
 def visitObjs (tbl : Table) (ts : List Obj) : Rep := Rep.seq (ts.map (visitLimRef tbl))
 
 /-- a functor stored in `adapts<T>::functor_` / `typed_slot_rep::functor_`: its `adaptor_type` is `T` for
@@ -284,6 +310,7 @@ def stored (tbl : Table) (isAd : Bool) (r : Rep) : Rep :=
     | .functor_ => r
     | _ => .done
 
+mutual
 /-- `visit_each(limit_trackable_target<slot_do_bind>, e)` -/
 def scan (tbl : Table) : FExpr → Rep
   | .leaf => visitPrimary tbl (.own 0) false
@@ -299,12 +326,12 @@ def scan (tbl : Table) : FExpr → Rep
   | .bind (some _) f bs => row tbl .bind_loc fun
       | .functor_ => stored tbl f.isAdaptor (scan tbl f)
       | .bound_ => visitTuple tbl bs
-      | .bound_0 => visitTuple tbl (bs.take 1)
+      | .bound_0 => visitFirst tbl bs
       | _ => .done
   | .bind none f bs => row tbl .bind_last fun
       | .functor_ => stored tbl f.isAdaptor (scan tbl f)
       | .bound_ => visitTuple tbl bs
-      | .bound_0 => visitTuple tbl (bs.take 1)
+      | .bound_0 => visitFirst tbl bs
       | _ => .done
   | .bindReturn f b => row tbl .bind_return fun
       | .functor_ => stored tbl f.isAdaptor (scan tbl f)
@@ -343,6 +370,43 @@ def scan (tbl : Table) : FExpr → Rep
       | .rep_parent => .kid (stored tbl f.isAdaptor (scan tbl f)) .done
       | _ => .done
 
+/-- `visitor<bound_argument<T>>`: `visit_each(action, arg.visit())`.  `visit()` is the `limit_reference` for a
+    `reference_wrapper`, otherwise the stored value itself: an `int`, a by-value object (primary visitor), or a
+    functor — then `visit_each` dispatches to *that functor's* visitor (`visitor<bound_mem_functor>`,
+    `visitor<slot>`, an adaptor's visitor, …); the value is stored as `T`, not as `adaptor_type`. -/
+def visitBound (tbl : Table) : BArg → Rep
+  | .val => row tbl .bound_argument fun
+      | .visit => visitPrimary tbl (.own 0) false
+      | .visit_ref_only => act (.own 0) false
+      | _ => .done
+  | .ref o => row tbl .bound_argument fun
+      | .visit => visitLimRef tbl o
+      | .visit_ref_only => visitLimRef tbl o
+      | _ => .done
+  | .cref o => row tbl .bound_argument fun
+      | .visit => visitLimRef tbl o
+      | .visit_ref_only => visitLimRef tbl o
+      | _ => .done
+  | .copy o => row tbl .bound_argument fun
+      | .visit => visitPrimary tbl (.own o.id) o.kind.derivesTrackable
+      | .visit_ref_only => act (.own o.id) o.kind.derivesTrackable
+      | _ => .done
+  | .fn e => row tbl .bound_argument fun
+      | .visit => scan tbl e
+      | .visit_ref_only => act (.own 0) false     -- `action(functor)`: a functor type is not a trackable
+      | _ => .done
+
+/-- `tuple_for_each<TupleVisitorVisitEach>(tuple, action)`: every element, in order -/
+def visitTuple (tbl : Table) : List BArg → Rep
+  | [] => .done
+  | b :: bs => (visitBound tbl b).append (visitTuple tbl bs)
+
+/-- `visit_each(action, std::get<0>(target.bound_))` (the unrepaired `bind<I>` row) -/
+def visitFirst (tbl : Table) : List BArg → Rep
+  | [] => .done
+  | b :: _ => (visitBound tbl b).append .done
+end
+
 /-- the record of the `typed_slot_rep` of `slot<…>(e)` (its functor is stored as `adaptor_type`) -/
 def repOf (tbl : Table) (e : FExpr) : Rep := stored tbl e.isAdaptor (scan tbl e)
 
@@ -358,15 +422,48 @@ def visitedAll (e : FExpr) : List Nat := visitedAllWith codeTable e
 /-- destroying trackable `t` invalidates a slot made from `e` (directly or through the parent chain) -/
 def ties (e : FExpr) (t : Nat) : Bool := (repOf codeTable e).invalidatedBy t
 
-/-- no `slot` stored anywhere inside -/
+mutual
+/-- no `slot` stored anywhere inside (bound functors included) -/
 def slotFree : FExpr → Bool
   | .leaf | .memFun _ | .makeSlot _ | .signalConnect _ => true
-  | .bind _ f _ | .bindReturn f _ | .hide _ f | .hideReturn f | .retype f | .retypeReturn f
+  | .bind _ f bs => slotFree f && slotFreeArgs bs
+  | .bindReturn f b => slotFree f && b.slotFree
+  | .hide _ f | .hideReturn f | .retype f | .retypeReturn f
   | .trackObj f _ => slotFree f
   | .compose1 s g => slotFree s && slotFree g
   | .compose2 s g1 g2 => slotFree s && slotFree g1 && slotFree g2
   | .exceptionCatch f c => slotFree f && slotFree c
   | .slot _ => false
+
+def BArg.slotFree : BArg → Bool
+  | .fn e => Visit.slotFree e
+  | _ => true
+
+def slotFreeArgs : List BArg → Bool
+  | [] => true
+  | b :: bs => b.slotFree && slotFreeArgs bs
+end
+
+mutual
+/-- no functor-valued bound argument anywhere inside -/
+def plainBound : FExpr → Bool
+  | .leaf | .memFun _ | .makeSlot _ | .signalConnect _ => true
+  | .bind _ f bs => plainBound f && plainArgs bs
+  | .bindReturn f b => plainBound f && b.plain
+  | .hide _ f | .hideReturn f | .retype f | .retypeReturn f
+  | .trackObj f _ | .slot f => plainBound f
+  | .compose1 s g => plainBound s && plainBound g
+  | .compose2 s g1 g2 => plainBound s && plainBound g1 && plainBound g2
+  | .exceptionCatch f c => plainBound f && plainBound c
+
+def BArg.plain : BArg → Bool
+  | .fn _ => false
+  | _ => true
+
+def plainArgs : List BArg → Bool
+  | [] => true
+  | b :: bs => b.plain && plainArgs bs
+end
 
 /-! ## the callback list of one trackable (`trackable_callback_list`) -/
 
@@ -445,19 +542,23 @@ def parseObj (s : String) : Option Obj :=
 def parsePos (s : String) : Option (Option Nat) :=
   if s = "L" then some none else (s.toNat?).map some
 
-def parseBArg : List String → Option (BArg × List String)
+abbrev Parser := List String → Option (FExpr × List String)
+
+/-- `p` parses the expression of a bound functor (`fun <expr>`) -/
+def parseBArg (p : Parser) : List String → Option (BArg × List String)
   | "val" :: r => some (.val, r)
   | "ref" :: o :: r => (parseObj o).map fun o => (.ref o, r)
   | "cref" :: o :: r => (parseObj o).map fun o => (.cref o, r)
   | "copy" :: o :: r => (parseObj o).map fun o => (.copy o, r)
+  | "fun" :: r => (p r).map fun (e, r1) => (.fn e, r1)
   | _ => none
 
-def parseBArgs : Nat → List String → Option (List BArg × List String)
+def parseBArgs (p : Parser) : Nat → List String → Option (List BArg × List String)
   | 0, r => some ([], r)
   | n + 1, r =>
-    match parseBArg r with
+    match parseBArg p r with
     | some (b, r1) =>
-      match parseBArgs n r1 with
+      match parseBArgs p n r1 with
       | some (bs, r2) => some (b :: bs, r2)
       | none => none
     | none => none
@@ -483,11 +584,11 @@ def parseE : Nat → List String → Option (FExpr × List String)
     | "bind" :: pos :: n :: r =>
       match parsePos pos, n.toNat?, p r with
       | some pos, some n, some (f, r1) =>
-        (parseBArgs n r1).map fun (bs, r2) => (.bind pos f bs, r2)
+        (parseBArgs p n r1).map fun (bs, r2) => (.bind pos f bs, r2)
       | _, _, _ => none
     | "bret" :: r =>
       match p r with
-      | some (f, r1) => (parseBArg r1).map fun (b, r2) => (.bindReturn f b, r2)
+      | some (f, r1) => (parseBArg p r1).map fun (b, r2) => (.bindReturn f b, r2)
       | none => none
     | "hide" :: pos :: r =>
       match parsePos pos, p r with
@@ -542,7 +643,8 @@ def showTable (tbl : Table) : String :=
 /-- one driver case per input line → one output line.
     `<expr in prefix notation>`  →  `regs=<own rep's targets in visiting order> all=<incl. inner reps>
     refd=<referenced> tied=<ids whose destruction invalidates> kids=<inner reps> depth=<n>`;
-    `table` prints the visitor table; `old <expr>` evaluates with the unrepaired table. -/
+    `table` prints the visitor table; `old <expr>` evaluates with the unrepaired table, `boundleaf <expr>` with
+    `boundLeafTable`. -/
 def processLine (line : String) : String :=
   match words line with
   | ["table"] => "table " ++ showTable codeTable
@@ -550,6 +652,11 @@ def processLine (line : String) : String :=
     match parseE (toks.length + 1) toks with
     | some (e, []) => "regs=" ++ showTgts (repOf unrepairedTable e).regs
         ++ " all=" ++ showTgts (repOf unrepairedTable e).allRegs ++ " refd=" ++ showNats (referenced e)
+    | _ => "parse-error"
+  | "boundleaf" :: toks =>
+    match parseE (toks.length + 1) toks with
+    | some (e, []) => "regs=" ++ showTgts (repOf boundLeafTable e).regs
+        ++ " all=" ++ showTgts (repOf boundLeafTable e).allRegs ++ " refd=" ++ showNats (referenced e)
     | _ => "parse-error"
   | toks =>
     match parseE (toks.length + 1) toks with
